@@ -147,23 +147,31 @@ func TestVerif_C23_NodeLayer(t *testing.T) {
 			}
 			return ok, by
 		}
-		time.Sleep(3 * time.Millisecond) // the watcher spawns a window's callback asynchronously
+		// The watcher spawns a window's callback asynchronously and the
+		// callback spawns one goroutine per wallet: wait until every window
+		// seen so far has a start for every wallet AND nothing has changed for
+		// a while. An incomplete picture at the deadline is inconclusive.
 		deadline := time.Now().Add(20 * time.Second)
 		var by map[uint64]map[string]int
+		lastN, stableSince := -1, time.Now()
 		for {
-			var ok bool
-			ok, by = complete()
-			if ok || time.Now().After(deadline) {
-				if !ok {
-					r.Inconclusive("watchdog: some per-wallet starts of a triggered window were not observed: " + desc)
-					return
-				}
+			ok, cur := complete()
+			smu.Lock()
+			nrec := len(rec)
+			smu.Unlock()
+			if nrec != lastN {
+				lastN, stableSince = nrec, time.Now()
+			}
+			by = cur
+			if ok && time.Since(stableSince) > 25*time.Millisecond {
 				break
 			}
-			time.Sleep(200 * time.Microsecond)
+			if time.Now().After(deadline) {
+				r.Inconclusive("watchdog: some per-wallet starts of a triggered window were not observed: " + desc)
+				return
+			}
+			time.Sleep(500 * time.Microsecond)
 		}
-		time.Sleep(2 * time.Millisecond) // late duplicates, if any, get a chance to show
-		_, by = complete()
 		r.Case(desc, len(by) > 0)
 		mu.Lock()
 		windows += int64(len(by))
